@@ -94,7 +94,7 @@ def run(rep, tier, seed):
         exp = cs["exp"]
         if exp == "reject":
             if ok:
-                fsig = "C03/mask-wrong-length-accepted" if cs.get("why") == "mask-length" else sig + "/accepts-out-of-range"
+                fsig = "C03/mask-wrong-length-accepted/" + "/".join(cs["sig"].split("/")[1:]) if cs.get("why") == "mask-length" else sig + "/accepts-out-of-range"
                 rep.fail(fsig, f"{req['stmts']} returned {absval.short(absval.absval(rd['v']))} but addresses no element", replay)
             else: reject_ok += 1
             continue
